@@ -188,10 +188,9 @@ Proof.
   - cbn in Hne. congruence.
   - destruct f as [|f]; [lia|]. rewrite iter_S. unfold Gen.MarshalUint_loop1 at 1.
     cbn [marshal_uint_go] in *.
-    destruct W as (Wa & Wo & Wl & Wc & Wm) eqn:EW. clear EW.
-    assert (W : wf_slice h buf) by (repeat split; assumption).
-    destruct (Z.to_nat (s_len buf - idx)) as [|room] eqn:Eroom; go_run.
-    all: lazymatch goal with
+    pose proof W as (Wa & Wo & Wl & Wc & Wm).
+    destruct (Z.to_nat (s_len buf - idx)) as [|room] eqn:Eroom; go_run;
+    lazymatch goal with
          | |- iter _ _ _ _ = _ =>
              (* a continuation byte was stored; the rest by induction *)
              go_unwrap;
